@@ -58,7 +58,7 @@ HOT = ['sort', 'sort', 'sort', 'cache', 'cache', 'cache-of-sort',
 def budget(tier):
     if tier == 'quick':
         return {'cases': 24000, 'wall_cap_s': 240}
-    return {'cases': 400000, 'wall_cap_s': 1500}
+    return {'cases': 1200000, 'wall_cap_s': 1500}
 
 
 def gen_case(rng, tier, g):
